@@ -39,7 +39,7 @@ PAYLOADS = [
     "<key>", "<body>", "<newline>", "<indent>", "<condition_kwargs>", "<salt>", "A<key>B", "{key}", "{body}", "$key", "%(key)s", "{{key}}",
     "__KEY__", "@@BODY@@", "${salt}", "<%= key %>", "\\g<1>", "\\1", "$1", "&", "\\0",
     "name='f'", "name='uid'", "f", "uid", "1", "(1, 2)", "Identifier(name='f')", "0", "z",
-    "it's", 'say "hi"', "plain", "\\n", "\\t'", "${x}", "`x`", "'+'", "\\'", 'a" + __pyab_sentinel__() + "b',
+    "", " ", "it's", 'say "hi"', "plain", "\\n", "\\t'", "${x}", "`x`", "'+'", "\\'", 'a" + __pyab_sentinel__() + "b',
     # strings that look like data of some other type (versions, dates, addresses, numbers in other notations, patterns, formats)
     "2.10.0", "2.5", "10.0", "1.2.3.4", "v1.2", "2024-01-31", "12:30", "10.0.0.1", "a@b.co", "/usr/bin", "1,000", "50%", "$5", "#fff", "<b>", "&amp;",
     "null", "true", "false", "undefined", "NULL", "\\d+", ".*", "^a$", "[a-z]", "%Y-%m-%d", "{:>4}", "0b1", "0o7", "1j", "1L", "1.", ".5", "+1", "-1",
